@@ -1018,6 +1018,8 @@ func init() {
 		for _, rt := range []string{"rds", "eds", "cds"} {
 			lockStress(c, rt, 900)
 		}
+		lockStress(c, "rds", 3000)
+		lockStress(c, "eds", 3000)
 		cbPolicyBeforeData(c)
 		for _, rt := range []string{"rds", "eds"} {
 			evictDuringUpdate(c, rt)
